@@ -19,7 +19,7 @@ CLAIMED = {
         text="Pack(T, cx, v) in TLA+ is REF_ENCODE; TLC checks IsBasic(Pack(..)) on the model, exports every state as a vector whose expected wire form "
              "the real to_dict / BasicEncoder output must equal (order-sensitive; set-derived lists as bags), json.dumps must accept it; random deeper "
              "executions are judged by TLC evaluating the same operator on the logged input.",
-        note="Trusted: as C01. Format dialects (orjson/msgpack/toml natives) are judged in C04's check with the same operator and cx.native.",
+        note="Trusted: as C01. The format-dialect sentence is judged with the same operator and cx.native over the MC_C04 shape universe (parsed document of every format mixin / codec) and over lazy format-mixin histories of the sys state machine.",
         tech="TLA+ reference serializer evaluated by TLC as oracle (replay + trace validation)", ref="6 C02"),
     "C03": dict(
         text="Unpack(T, cx, j) in TLA+ is REF_DECODE, total over a universe of foreign JSON-like inputs (43 inputs x every type of the grammar) plus mutated wire forms; "
@@ -49,7 +49,7 @@ CLAIMED = {
         tech="exhaustive TLC enumeration of the option lattice replayed into the code", ref="6 C08"),
     "C09": dict(
         text="KeyModel (FAlias, FieldKey, AllowedKeys) in TLA+; TLC proves ReadsOnlyAllowed, ExtraExact, AliasWins and enumerates all alias-source subsets x option pairs x all 2^8 key subsets "
-             "(33,792 inputs); every one is replayed and the result / ExtraKeysError.extra_keys / MissingField.field_name compared.",
+             "(70,656 inputs incl. an Any-typed field and aliases that shadow / chain / swap field names); every one is replayed and the result / ExtraKeysError.extra_keys / MissingField.field_name compared.",
         note="Exhaustive for two fields and the three alias sources; class-level discriminator keys are covered in C12's check.", 
         tech="exhaustive TLC enumeration replayed into the code", ref="6 C09"),
     "C10": dict(
@@ -68,12 +68,12 @@ CLAIMED = {
     "C13": dict(
         text="sys/Mashumaro.tla models per-class dialect caches and dispatch; TLC proves Faithful/CacheOwn over all call histories (C, S<C x to/from x {none,D1,D2,D3}) and IsolationEq "
              "(call with dialect D == family twin with default dialect D) on the reference semantics; every history is replayed on fresh classes and every (class, direction, dialect) "
-             "is compared with a freshly built real twin. Second half: default_dialect x 6 options x 5 format codecs must parse to the BasicEncoder document.",
+             "is compared with a freshly built real twin. Second half: default_dialect x 6 options (declared on the dialect class, inherited from a parent dialect class, or mixed) x 5 format codecs must parse to the BasicEncoder document.",
         note="The deviant 'cache found through the parent class' is refuted by TLC (recorded in evidence.selftests).",
         tech="TLA+ state machine + exhaustive behaviours replayed into the code; cross-codec comparison", ref="6 C13"),
     "C14": dict(
         text="Same state machine with lazily compiled classes (stub -> compile -> install): every history of calls x dialects on lazy C / lazy nested Inner / both must give the outcome of the "
-             "history-free reference (== eager twin). Forward references, generic specialisations and thread schedules are driven by harness/checks/c14_extra.py.",
+             "history-free reference (== eager twin). Nested GENERIC dataclasses are part of the state machine (gspecs: one specialisation per tuple of type arguments; MC_SysG explores every order of definition and first use of Box[Union[int,str]] / Box[Union[str,int]] / Box[date]; the deviant key that identifies ==-equal arguments is refuted by TLC). Forward references and thread schedules are driven by harness/checks/c14_extra.py.",
         note="Thread schedules: forced at line granularity via sys.settrace for a bounded number of seeded schedules; intra-line preemption only by free-running stress.",
         tech="TLA+ state machine + exhaustive behaviours replayed; seeded forced thread schedules", ref="6 C14"),
     "C15": dict(
@@ -96,29 +96,29 @@ CLAIMED = {
     "C11": dict(
         text="UnpackUnion / UnpackLiteral / PackMembers in TLA+ (reading fixed in DESIGN.md A.3); TLC proves NullOnlyNull, ExactUnchanged, WellTyped, LiteralListed and enumerates every ordered union of 2..3 "
              "(thorough: 4) distinct members of 9 member types + 6 Literal types, bare and as a dataclass field, x 30 foreign inputs and the members' samples; every state is replayed.",
-        note="TypeVar constraints are not in the bridge yet.", tech="exhaustive TLC enumeration of unions x inputs replayed into the code", ref="6 C11"),
+        note="TypeVar constraints are not in the bridge yet. Shapes holding two unions over the same members in permuted order are included.", tech="exhaustive TLC enumeration of unions x inputs replayed into the code", ref="6 C11"),
     "C20": dict(
         text="The builder context is a state machine in the trace spec (ctx[b] = definitions so far): TLC checks WellFormed (metaschema subset, cross-checked with check_schema), RefsClosed "
              "(every $ref resolves in the document, starts with the configured prefix and names a collected definition), DefsMonotone over sequences of JSONSchemaBuilder.build calls, and the "
-             "JSONSchema.from_dict(...).to_dict() round trip; totality is exercised over every type of the grammar, random dataclasses with defaults of every type under 5-9 Configs, and self-references.",
+             "JSONSchema.from_dict(...).to_dict() round trip; totality is exercised over every type of the grammar, the TLC-enumerated defaulted-class families of MC_C20 (value / None defaults in both declaration orders, built one after another in one process), random dataclasses with defaults of every type under 5-9 Configs, and self-references.",
         note="Types the builder itself declares unsupported (NotImplementedError: re.Pattern) are outside the schema-supported grammar and counted as unmodelled.",
         tech="TLC trace validation of recorded build events against a TLA+ builder-context state machine", ref="6 C20"),
     "C18": dict(
         text="Heap.tla defines SharedPaths(T, cx, v): the set of positions of mutable containers the output must (and may only) share by identity -- exactly positions whose origin type is in "
              "no_copy_collections and whose elements are conversion-free (ConvFree, including the customisation Winner); TLC proves DefaultSharesNothing and OnlyListed and emits, for 28 shapes x all "
              "N subsets of {list,dict,set} x mixin/plain x values, the expected wire form and expected shared paths; the replayer compares id()-graphs in BOTH directions (no hidden sharing, promised "
-             "sharing present), deep-compares the argument before/after, and checks that deserialization shares nothing with and does not mutate its input.",
+             "sharing present), deep-compares the argument before/after, and checks that deserialization shares nothing with and does not mutate its input; to_dict(dialect=D) is also judged AFTER to_msgpack / to_jsonb with the same dialect object (histories).",
         note="Any positions are excepted as in the statement (AnyPaths). Format dialects' no_copy (orjson/msgpack/toml) are modelled by the same option.",
         tech="TLA+ sharing model (paths) + TLC enumeration replayed with identity-graph comparison", ref="6 C18"),
     "C19": dict(
         text="Hooks.tla gives the closed-form pre/post-order traversal (SerTrace / DeserTrace) and the reference Pack/Unpack apply fixed observable hook transformations; TLC proves Once and PreBeforePost "
-             "and emits expected result + expected hook trace for all hook-subset / context-flag combinations on Outer/Inner/union members, bare list / union / dict shapes; each is replayed through "
+             "and emits expected result + expected hook trace for all hook-subset / context-flag combinations on Outer/Inner/union members, bare list / union / dict shapes, and class-level discriminator families whose base declares hooks (FamOnce); each is replayed through "
              "to_dict/from_dict, five format mixins and the basic codec, comparing both the result and the recorded hook log (with the context object's identity).",
         note="Speculative __pre_deserialize__ calls of failing union candidates are allowed; speculative serialize hooks are not.",
         tech="TLA+ traversal spec as oracle for recorded hook traces (replay)", ref="6 C19"),
     "C16": dict(
         text="Quote.tla specifies Python's single-quoted literal lexing over code points; TLC proves ReprSafe (Repr(s) denotes s for every string of length <= 4 over an adversarial "
-             "10-character alphabet), RawSafeWhenPlain and RawSpliceRefuted (the deviant 'splice between quotes' emission), and emits one class per (position, string) for 9 positions "
+             "10-character alphabet), RawSafeWhenPlain and RawSpliceRefuted (the deviant 'splice between quotes' emission), and emits one class per (position, string) for 12 positions (incl. every to_dict emission path of an alias) "
              "with the expected by-alias serialization and deserialization from the reference Pack/Unpack; each is built and executed for real, and a counter injected into builtins "
              "detects any execution of payload strings.",
         note="TLC's share is the generator, the lexing theorems and the oracle; the decisive evidence is the replay (DESIGN.md 6 C16).",
